@@ -54,7 +54,7 @@ def run(ctx):
         cases = list(dict.fromkeys(cases))
     else:
         cfg = "FieldSelect_quick.cfg" if ctx.tier == "quick" else "FieldSelect_thorough.cfg"
-        res = ctx.tlc_expect_ok("FieldSelect", cfg, timeout=900 if ctx.tier == "quick" else 3000, deadlock=False)
+        res = ctx.tlc_expect_ok("FieldSelect", cfg, timeout=2700 if ctx.tier == "quick" else 3000, deadlock=False)
         cases = [ln[5:-1] for ln in res.out.splitlines() if ln.startswith('"C18 [') and ln.endswith(']"')]
         m = _INIT.search(res.out)
         if not m:
@@ -67,29 +67,29 @@ def run(ctx):
         res.out = ""
         # mechanism check: the spec with one shared backing array for all depth buffers must violate Keep
         # (so the small scope contains the situation that distinguishes it), the spec as the code is must not
-        mut = ctx.tlc("FieldSelect", "FieldSelect_mutant_sharedbuf.cfg", timeout=600, deadlock=False,
+        mut = ctx.tlc("FieldSelect", "FieldSelect_mutant_sharedbuf.cfg", timeout=1800, deadlock=False,
                       name="mutant shared backing array (must be rejected)")
         if mut.ok or mut.violated != "MutantInv":
             raise vlib.Infra("spec mutant ~M_DepthBuffersDisjoint was not rejected by TLC (%s)\n%s" %
                              (mut.violated, mut.out[-1500:]))
         if ctx.tier == "thorough":
-            ctx.tlc_expect_ok("FieldSelect", "FieldSelect_mutant_sharedbuf.cfg", timeout=600, deadlock=False, count=False,
+            ctx.tlc_expect_ok("FieldSelect", "FieldSelect_mutant_sharedbuf.cfg", timeout=1800, deadlock=False, count=False,
                               overrides={"M_DepthBuffersDisjoint": "TRUE"}, name="same scope, buffers disjoint (must pass)")
-        mk = ctx.tlc("FieldSelect", "FieldSelect_mutant_kinds.cfg", timeout=600, deadlock=False,
+        mk = ctx.tlc("FieldSelect", "FieldSelect_mutant_kinds.cfg", timeout=1800, deadlock=False,
                      name="mutant only regular events filtered (must be rejected)")
         if mk.ok or mk.violated != "MutantKindInv":
             raise vlib.Infra("spec mutant ~M_AllDocumentKindsFiltered was not rejected by TLC (%s)\n%s" %
                              (mk.violated, mk.out[-1500:]))
         # two plugin instances with interleaved buffer operations: as the code is (own buffers) must pass,
         # the mutant "instances share the backing arrays" must be rejected
-        ctx.tlc_expect_ok("FieldSelect", "FieldSelect_instances.cfg", timeout=600, deadlock=False,
+        ctx.tlc_expect_ok("FieldSelect", "FieldSelect_instances.cfg", timeout=1800, deadlock=False,
                           name="two instances, all interleavings of buffer operations (must pass)")
-        mi = ctx.tlc("FieldSelect", "FieldSelect_mutant_instances.cfg", timeout=600, deadlock=False,
+        mi = ctx.tlc("FieldSelect", "FieldSelect_mutant_instances.cfg", timeout=1800, deadlock=False,
                      name="mutant instances share the backing arrays (must be rejected)")
         if mi.ok or mi.violated != "InstInv":
             raise vlib.Infra("spec mutant ~M_BuffersPerInstance was not rejected by TLC (%s)\n%s" %
                              (mi.violated, mi.out[-1500:]))
-        mn = ctx.tlc("FieldSelect", "FieldSelect_mutant_names.cfg", timeout=600, deadlock=False,
+        mn = ctx.tlc("FieldSelect", "FieldSelect_mutant_names.cfg", timeout=1800, deadlock=False,
                      name="mutant long names never found (must be rejected)")
         if mn.ok or mn.violated != "MutantInv":
             raise vlib.Infra("spec mutant ~M_NamesComparedWhole was not rejected by TLC (%s)\n%s" %
@@ -148,7 +148,7 @@ def run(ctx):
         out = os.path.join(ctx.scratch, "c18_out_%s.json" % name)
         rc, txt = ctx.run_bin(binary, "^TestVerifC18$",
                               env={"VERIF_CASES": path, "VERIF_OUT": out, "VERIF_E2E": e2e_path, "VERIF_STRESS": stress_path,
-                                   "VERIF_STRESS_MS": stress_ms, "LOG_LEVEL": "error"}, timeout=3000)
+                                   "VERIF_STRESS_MS": stress_ms, "LOG_LEVEL": "error"}, timeout=9000)
         if rc != 0 or not os.path.exists(out):
             raise vlib.Infra("C18 harness (%s) failed rc=%s:\n%s" % (name, rc, txt[-3000:]))
         r = json.load(open(out))
